@@ -155,11 +155,19 @@ def gen(r, tier):
     nclients = r.choice([1, 2, 3])
     seqs = []
     ntr = r.randint(1, 4)
+    prev_tr = None
     for tid in range(ntr):
         if r.chance(0.35):
             seqs.append(gen_b2_steps(r, tid, nclients))
         else:
-            seqs.append(mutate_steps(r, steps_of(gen_transfer(r, tid, nclients))))
+            tr = gen_transfer(r, tid, nclients)
+            if prev_tr is not None and nclients > 1 and r.chance(0.4):
+                # a twin: ANOTHER endpoint runs the same transfer (same method, resource, options, sizes) with a body
+                # of its own at the same time -- only the endpoint tells the two assemblies apart
+                tr = dict(prev_tr, tid=tid, seed=tid * 7 + 1,
+                          c=r.choice([c for c in range(nclients) if c != prev_tr["c"]]))
+            prev_tr = tr
+            seqs.append(mutate_steps(r, steps_of(tr)))
     # interleave
     ops = []
     idx = [0] * len(seqs)
@@ -183,7 +191,7 @@ def gen(r, tier):
         else:
             t += r.choice([2 * T + 0.01, 200.0, 400.0])
         op["t"] = round(t, 4)
-    return {"nclients": nclients, "ops": ops}
+    return {"nclients": nclients, "ops": ops, "same_host": r.chance(0.3)}
 
 
 def systematic(tier):
@@ -284,7 +292,13 @@ def execute(sim, scn):
 
     loop.run_until_complete(setup())
     srv = (common.SERVER_IP, 5683)
-    clients = [Client(sim, common.PEER_IPS[i], 5683) for i in range(scn["nclients"])]
+    if scn.get("same_host"):
+        # several client processes on one host: one IP address, different ports -- different endpoints
+        clients = [Client(sim, common.PEER_IPS[0], 5683 + i) for i in range(scn["nclients"])]
+        if len(clients) > 1:
+            sim.probe("clients_share_a_host")
+    else:
+        clients = [Client(sim, common.PEER_IPS[i], 5683) for i in range(scn["nclients"])]
     for i, op in enumerate(scn["ops"]):
         cl = clients[op["c"]]
         opts = [(rc.URI_PATH, op["path"].encode())]
